@@ -76,3 +76,50 @@ Print Assumptions C03_placement_estimate_covers.
 Print Assumptions C03_placement_search_both_terminates.
 Print Assumptions C03_placement_search_secondary_definite_terminates.
 Print Assumptions C03_placement_mark_area_total.
+
+(* ------------------------------------------------------------------------------------------------------------------
+   The other discrete mechanisms C03 names, proved in the developments of C07 / C09 / C14 and restated here (qualified
+   names: those developments use their own vocabularies):
+   - the flex freeze/violation loop (resolve_flexible_lengths) terminates within its fuel for ANY values, NaN and
+     infinities included, any main size;
+   - the fr search (find_size_of_fr) exits; the maximise_tracks distribution loop reaches its fixpoint within G+1 rounds;
+   - accessor / mutator calls with an out-of-range child index return ChildIndexOutOfBounds with the right payload and
+     leave the tree state IDENTICAL (no panic). *)
+From TV Require Num.Num Num.QNum Model.Flex Proofs.FlexProofs Model.GridTracks Proofs.GridTracksProofs Model.Tree Proofs.TreeProofs.
+
+Theorem C03_flex_loop_terminates :
+  forall (items : list (TV.Model.Flex.FlexItem TV.Num.QNum.XQ)) (gap : TV.Num.QNum.XQ) (M : option TV.Num.QNum.XQ),
+    exists res, TV.Model.Flex.resolve_flexible_lengths items gap M = Some res.
+Proof. exact TV.Proofs.FlexProofs.loop_terminates. Qed.
+
+Theorem C03_fr_search_terminates :
+  forall (tracks : list (TV.Model.GridTracks.track TV.Num.QNum.XQ)) (sp : QArith_base.Q),
+    Forall TV.Proofs.GridTracksProofs.track_ok2 tracks ->
+    snd (TV.Model.GridTracks.fr_exit tracks (TV.Num.QNum.Fin sp)) = true.
+Proof. exact TV.Proofs.GridTracksProofs.fr_terminates. Qed.
+
+Theorem C03_maximise_distribution_terminates :
+  forall (inner : option TV.Num.QNum.XQ) (n : nat) (sp : QArith_base.Q)
+         (tracks : list (TV.Model.GridTracks.track TV.Num.QNum.XQ)) (fuel : nat),
+    Forall (TV.Proofs.GridTracksProofs.tok inner) tracks ->
+    (TV.Proofs.GridTracksProofs.G inner tracks <= n)%nat -> (n + 1 <= fuel)%nat ->
+    TV.Proofs.GridTracksProofs.mloop inner fuel (TV.Num.QNum.Fin sp) tracks =
+    TV.Proofs.GridTracksProofs.mloop inner (n + 1) (TV.Num.QNum.Fin sp) tracks.
+Proof. exact TV.Proofs.GridTracksProofs.mloop_terminates. Qed.
+
+Theorem C03_index_errors :
+  forall (t : TV.Model.Tree.tree) (p : TV.Model.Tree.key) (l : list TV.Model.Tree.key),
+    TV.Model.Tree.sm_get (TV.Model.Tree.t_children t) p = Some l ->
+    forall (i : BinNums.N) (c : TV.Model.Tree.key),
+      ((N.of_nat (length l) < i)%N ->
+       TV.Model.Tree.step t (TV.Model.Tree.OInsertChild p i c) = TV.Model.Tree.Ok (t, TV.Model.Tree.RErr p i (N.of_nat (length l)))) /\
+      ((N.of_nat (length l) <= i)%N ->
+       TV.Model.Tree.step t (TV.Model.Tree.ORemoveChildAt p i) = TV.Model.Tree.Ok (t, TV.Model.Tree.RErr p i (N.of_nat (length l))) /\
+       TV.Model.Tree.step t (TV.Model.Tree.OReplaceChildAt p i c) = TV.Model.Tree.Ok (t, TV.Model.Tree.RErr p i (N.of_nat (length l))) /\
+       TV.Model.Tree.child_at_index t p i = TV.Model.Tree.Ok (TV.Model.Tree.RErr p i (N.of_nat (length l)))).
+Proof. exact TV.Proofs.TreeProofs.index_errors. Qed.
+
+Print Assumptions C03_flex_loop_terminates.
+Print Assumptions C03_fr_search_terminates.
+Print Assumptions C03_maximise_distribution_terminates.
+Print Assumptions C03_index_errors.
